@@ -4,6 +4,7 @@ package interp
 
 import (
 	"fmt"
+	"go/token"
 	"go/types"
 	"sort"
 	"unicode/utf8"
@@ -341,4 +342,27 @@ type fallThrough struct{}
 // opaque string that only strconv.ParseInt/Atoi can read back.
 type symDecimal struct {
 	s sym
+}
+
+// symDecimalBinop: the only comparisons defined on the opaque decimal text of a
+// symbolic integer are against the empty string (it is never empty).
+func symDecimalBinop(op token.Token, x, y value) (value, bool) {
+	_, dx := x.(symDecimal)
+	_, dy := y.(symDecimal)
+	if !dx && !dy {
+		return nil, false
+	}
+	other := y
+	if dy {
+		other = x
+	}
+	if s, ok := other.(string); ok && s == "" {
+		switch op {
+		case token.EQL:
+			return false, true
+		case token.NEQ:
+			return true, true
+		}
+	}
+	panic(engineAbort{kind: abortUnsupported, msg: "operation " + op.String() + " on the decimal text of a symbolic integer"})
 }
